@@ -45,6 +45,24 @@ fn render(rel: &Relation) -> String { ast::Query::from(rel).to_string() }
 fn schema_sig(rel: &Relation) -> Vec<(String, String)> { rel.schema().iter().map(|f| (f.name().to_string(), f.data_type().to_string())).collect() }
 fn rows_key(rows: &[Vec<Cell>], ordered: bool) -> Vec<String> { let mut v: Vec<String> = rows.iter().map(|r| r.iter().map(|c| match c { Cell::Real(f) => format!("{:.6}", f), Cell::Int(i) => format!("{:.6}", *i as f64), o => o.key() }).collect::<Vec<_>>().join("|")).collect(); if !ordered { v.sort(); } v }
 
+/// the two relations have the same column names and sizes, and column types that are equal as sets (`DataType ==` is mutual inclusion)
+/// while their text differs: the signature of the `DataType` Hash / Eq mismatch
+fn same_modulo_type_structure(a: &Relation, b: &Relation) -> bool {
+    use qrlew::data_type::DataType;
+    // integer types as explicit value sets (the library's own `==` distinguishes `int[0 2]` from `int{0, 1, 2}`)
+    fn ints(t: &DataType) -> Option<std::collections::BTreeSet<i64>> {
+        match t { DataType::Optional(o) => ints(o.data_type()),
+            DataType::Integer(i) => { let mut s = std::collections::BTreeSet::new(); for [lo, hi] in i.iter() { if hi.checked_sub(*lo)? > 10000 { return None; } for v in *lo..=*hi { s.insert(v); } } Some(s) }
+            _ => None }
+    }
+    // `null` (no value at all: the relation cannot have rows) on one side, any other spelling (`option(null)`, `option(any)`) on the other
+    let void = |t: &DataType| matches!(t, DataType::Null) || matches!(t, DataType::Optional(o) if matches!(o.data_type(), DataType::Null));
+    let same_set = |x: &DataType, y: &DataType| x.to_string() == y.to_string() || x == y || void(x) || void(y) || matches!((ints(x), ints(y)), (Some(p), Some(q)) if p == q && matches!(x, DataType::Optional(_)) == matches!(y, DataType::Optional(_)));
+    a.schema().len() == b.schema().len() && a.size() == b.size()
+        && a.schema().iter().zip(b.schema().iter()).all(|(x, y)| x.name() == y.name() && same_set(&x.data_type(), &y.data_type()))
+        && a.schema().iter().zip(b.schema().iter()).any(|(x, y)| x.data_type().to_string() != y.data_type().to_string())
+}
+
 pub fn eval(case: &J) -> Outcome {
     let mut out = Outcome::new();
     let sql = case["sql"].as_str().unwrap().to_string();
@@ -62,7 +80,11 @@ pub fn eval(case: &J) -> Outcome {
     let again = |label: &str, r2: Result<Result<Relation, String>, (String, String)>, out: &mut Outcome| {
         match r2 {
             Ok(Ok(r2)) => {
-                if r2 != r1 { out.fail(&format!("C16/determ/relation-differs/{label}/{cls}"), format!("{sql}: compiled again ({label}) gives a different relation: names {:?} vs {:?}", r1.name(), r2.name())); }
+                if r2 != r1 {
+                    // same columns, every pair of types equal as sets but written differently (a value list on one side, an interval on the other)?
+                    let c = if same_modulo_type_structure(&r1, &r2) { "type-structure" } else { cls };
+                    out.fail(&format!("C16/determ/relation-differs/{label}/{c}"), format!("{sql}: compiled again ({label}) gives a different relation: names {:?} vs {:?}, schemas {} vs {}", r1.name(), r2.name(), r1.schema(), r2.schema()));
+                }
                 else if render(&r2) != t1 { out.fail(&format!("C16/determ/text-differs/{label}/{cls}"), format!("{sql}: compiled again ({label}) renders differently")); }
             }
             _ => out.fail(&format!("C16/determ/outcome-differs/{label}/{cls}"), format!("{sql}: compiled once, fails when compiled again ({label})")),
@@ -89,9 +111,9 @@ pub fn eval(case: &J) -> Outcome {
     };
     let sig4 = schema_sig(&r4);
     if sig1.iter().map(|x| &x.0).collect::<Vec<_>>() != sig4.iter().map(|x| &x.0).collect::<Vec<_>>() { out.fail(&format!("C16/determ/fixpoint-names-differ/{cls}"), format!("{sql}: output columns {:?} become {:?} after render + compile", sig1.iter().map(|x| &x.0).collect::<Vec<_>>(), sig4.iter().map(|x| &x.0).collect::<Vec<_>>())); return out; }
-    if sig1 != sig4 { let d = sig1.iter().zip(sig4.iter()).find(|(a, b)| a != b).unwrap(); out.fail(&format!("C16/determ/fixpoint-types-differ/{cls}"), format!("{sql}: column `{}` has type {} but {} after render + compile", d.0 .0, d.0 .1, d.1 .1)); }
+    if sig1 != sig4 { let d = sig1.iter().zip(sig4.iter()).find(|(a, b)| a != b).unwrap(); out.fail(&format!("C16/determ/fixpoint-types-differ/{}", if same_modulo_type_structure(&r1, &r4) { "type-structure" } else { cls }), format!("{sql}: column `{}` has type {} but {} after render + compile", d.0 .0, d.0 .1, d.1 .1)); }
     let t4 = render(&r4);
-    match compile(&t4) { Ok(Ok(r5)) => { if schema_sig(&r5) != sig4 { out.fail(&format!("C16/determ/second-fixpoint-schema-differs/{cls}"), format!("{sql}: schema changes at the second render + compile")); } }
+    match compile(&t4) { Ok(Ok(r5)) => { if schema_sig(&r5) != sig4 { out.fail(&format!("C16/determ/second-fixpoint-schema-differs/{}", if same_modulo_type_structure(&r4, &r5) { "type-structure" } else { cls }), format!("{sql}: schema changes at the second render + compile")); } }
         _ => out.fail(&format!("C16/determ/rendered-not-readable/second/{cls}"), format!("{sql}: second rendering {t4} is not readable")) }
     // semantics: r1 and r4 return the same rows
     let mut rng = Rng::new(case["data_seed"].as_u64().unwrap());
